@@ -593,6 +593,13 @@ def write_evidence(prop, tier, seed, main, reach, kf, known, wall, vio_n, undeci
         ),
         assumptions=assumptions,
         wall_s=round(wall, 1), violations=vio_n)
+    if obligations == 0:
+        # no proof-tier obligation selected (e.g. --only): fall back to the generic counters, never claim zero proofs as proof
+        for k in ('obligations', 'discharged'):
+            ev['coverage'].pop(k)
+        ev['coverage']['evaluations'] = len(main)
+        ev['coverage']['distinct_nontrivial'] = len({(r['unit'], r['instance']) for r in main if r.get('n_props', 0) > 0})
+        ev['coverage']['rule'] = 'one evaluation = one bounded CBMC harness instance; non-trivial = it generated at least one checked property'
     os.makedirs(EVID, exist_ok=True)
     with open(os.path.join(EVID, prop + '.json'), 'w') as fh:
         json.dump(ev, fh, indent=1)
